@@ -76,6 +76,15 @@ def tailUnion (inc : Bool) : List Iv → Int
   | [] => 0
   | r :: rs => (if inc then 0 else r.2 - r.1 + 1) + tailUnion false rs
 
+/-- `intersection += ...` of an overlapping pair -/
+def ovInter (a b : Iv) : Int := min a.2 b.2 - max a.1 b.1 + 1
+
+/-- `union += ...` of an overlapping pair, depending on the `included` flags of the two heads -/
+def ovUnion (a b : Iv) (i1 i2 : Bool) : Int :=
+  if !i2 && !i1 then max a.2 b.2 - min a.1 b.1 + 1
+  else if i2 then max 0 (a.2 - b.2)
+  else max 0 (b.2 - a.2)
+
 /-- main loop of `jaccard_similarity`; `i1`/`i2` are `included1[pos1]`/`included2[pos2]` of the current
     heads (a block that has been passed is never looked at again, a new head starts at 0).
     Returns (intersection, union); `none` = the `assert` inside the loop fails. -/
@@ -85,15 +94,10 @@ def jaccardLoop : List Iv → Bool → List Iv → Bool → Option (Int × Int)
   | a :: as, i1, b :: bs, i2 =>
     if overlaps a b then
       if i1 && i2 then none
+      else if b.2 < a.2 then
+        (jaccardLoop (a :: as) true bs false).map (fun p => (p.1 + ovInter a b, p.2 + ovUnion a b i1 i2))
       else
-        let inter := min a.2 b.2 - max a.1 b.1 + 1
-        let un : Int :=
-          if !i2 && !i1 then max a.2 b.2 - min a.1 b.1 + 1
-          else if i2 then max 0 (a.2 - b.2)
-          else max 0 (b.2 - a.2)
-        let rest := if b.2 < a.2 then jaccardLoop (a :: as) true bs false
-                    else jaccardLoop as false (b :: bs) true
-        rest.map (fun p => (p.1 + inter, p.2 + un))
+        (jaccardLoop as false (b :: bs) true).map (fun p => (p.1 + ovInter a b, p.2 + ovUnion a b i1 i2))
     else if left_of b a then
       (jaccardLoop (a :: as) i1 bs false).map (fun p => (p.1, p.2 + (if i2 then 0 else b.2 - b.1 + 1)))
     else
@@ -117,6 +121,12 @@ def tailAppend (inc : Bool) (acc : List Iv) : List Iv → List Iv
   | [] => acc
   | r :: rs => tailAppend false (if inc then acc else r :: acc) rs
 
+/-- the update of the (reversed) union accumulator for an overlapping pair -/
+def ovAcc (a b : Iv) (i1 i2 : Bool) (acc : List Iv) : Option (List Iv) :=
+  if !i2 && !i1 then some ((min a.1 b.1, max a.2 b.2) :: acc)
+  else if i2 then bumpLast acc a.2
+  else bumpLast acc b.2
+
 /-- main loop of `merge_ranges`; `acc` is the union list reversed -/
 def mergeLoop : List Iv → Bool → List Iv → Bool → List Iv → Option (List Iv)
   | [], _, l2, i2, acc => some (tailAppend i2 acc l2)
@@ -125,11 +135,7 @@ def mergeLoop : List Iv → Bool → List Iv → Bool → List Iv → Option (Li
     if overlaps a b then
       if i1 && i2 then none
       else
-        let acc' : Option (List Iv) :=
-          if !i2 && !i1 then some ((min a.1 b.1, max a.2 b.2) :: acc)
-          else if i2 then bumpLast acc a.2
-          else bumpLast acc b.2
-        match acc' with
+        match ovAcc a b i1 i2 acc with
         | none => none
         | some acc' =>
           if b.2 < a.2 then mergeLoop (a :: as) true bs false acc'
